@@ -1,6 +1,7 @@
 //! zv: bounded exhaustive exploration of the real zeep-lib (DESIGN.md §3).
 
 mod corpus;
+mod interpose;
 mod props;
 mod report;
 mod runner;
@@ -17,6 +18,13 @@ fn main() {
     match args.get(1).map(|s| s.as_str()) {
         Some("worker") => runner::worker_main(),
         Some("setup") => props::setup(),
+        Some("selftest-interpose") => match interpose::selftest() {
+            Ok(m) => println!("interposers ok: {m}"),
+            Err(e) => {
+                eprintln!("MACHINERY-ERROR: {e}");
+                std::process::exit(2);
+            }
+        },
         Some("gen") => {
             runner::install_quiet_panic_hook();
             let start = args.get(2).unwrap_or_else(|| usage());
